@@ -72,9 +72,8 @@ pub fn problems_for(tier: Tier, scope: Scope) -> Vec<(String, PProblem)> {
     out.extend(family_timedep().into_iter().map(|p| ("timedep".to_string(), p)));
     out.extend(family_recharge().into_iter().map(|p| ("recharge".to_string(), p)));
     // required breaks: accounting rules and the break's own hard rules
-    if matches!(scope, Scope::Accounting | Scope::Hard) {
-        out.extend(family_reqbreak().into_iter().map(|p| ("reqbreak".to_string(), p)));
-    }
+    // (reporting: only what does not need the replay of the schedule around the break)
+    out.extend(family_reqbreak().into_iter().map(|p| ("reqbreak".to_string(), p)));
     // clustering: accounting rules, and of the reporting rules only "overall statistic == sum of the tours"
     if matches!(scope, Scope::Accounting | Scope::Reporting) {
         out.extend(family_cluster().into_iter().map(|p| ("cluster".to_string(), p)));
@@ -147,7 +146,7 @@ fn judge_solved(family: &str, problem: &PProblem, scen: Value, scope: Scope, sol
                         || f.rule == "C03:statistic-parking"
                         || ["C01:skills", "C01:group", "C01:compatibility", "C01:capacity", "C01:negative-load"].contains(&f.rule.as_str())
                 })
-                .filter(|f| family != "reqbreak" || f.rule.starts_with("C02:") || f.rule.starts_with("C01:required-break") || f.rule == "C01:capacity")
+                .filter(|f| family != "reqbreak" || f.rule.starts_with("C02:") || f.rule.starts_with("C01:required-break") || f.rule == "C01:capacity" || f.rule == "C03:required-break-outside-tour")
                 .map(|f| (finding_key(&f, family, problem), f))
                 .filter(|(key, _)| seen.insert(key.clone()))
                 .map(|(key, f)| Violation::new(key, f.what, scen.clone()))
